@@ -425,10 +425,14 @@ def check_hash(prog: Program, res: Result, fi, cls_name: str) -> None:
         pe = PE(f, {f"{s}.parity": p})
         outs = pe.run()
         rets = [o for o in outs if o.kind == "return"]
-        if len(outs) != 1 or len(rets) != 1:
+        if any(o.kind != "return" for o in outs) or not rets:
             res.bad("R-HASH-TABLE", f"{fi.short}[{p}]", fi.loc(),
-                    f"{cell}: expected exactly one reachable return, got "
+                    f"{cell}: a path does not return a hash value: "
                     f"{[o.kind for o in outs]}", instance=cell)
+            continue
+        if len(rets) != 1:
+            res.error(f"R-HASH-TABLE {cell}: {len(rets)} reachable returns "
+                      f"(unrecognised idiom, e.g. memoisation) at {fi.loc()}")
             continue
         e = rets[0].sym
         if not (isinstance(e, ast.Call) and call_name(e) == "hash"
@@ -530,7 +534,10 @@ def check_invert(prog: Program, res: Result, fi, cls_name: str) -> None:
                         if o1 is not None:
                             v = pe.ev(o1, out.env)
                 ok = (v == -p)
-        if not ok:
+        if not ok and not isinstance(e, ast.Call) and norm(e) != s:
+            res.error(f"R-INVERT {cell}: unrecognised return form "
+                      f"`{norm(e)}` at {fi.loc()}")
+        elif not ok:
             res.bad("R-INVERT", f"{fi.short}[{p}]", fi.loc(),
                     f"{cell}: must return {cls_name}(self.atoms, {-p}), "
                     f"returns `{norm(e)}`", instance=cell)
@@ -620,6 +627,75 @@ def check_perm_helpers(prog: Program, res: Result, cls_name: str) -> None:
                     f"{cell}: returns `{norm(e)}`", instance=cell)
 
 
+def check_placeholder_safe(prog: Program, res: Result) -> None:
+    """Orderings may contain the None placeholder more than once, so a map
+    atom -> position is not a function."""
+    res.rule("R-PLACEHOLDER-SAFE", "the comparison / hash code of a "
+             "descriptor never recovers a permutation through a positional "
+             "lookup of atoms (tuple.index, a dict keyed by the atoms): with "
+             "two placeholders that lookup is not injective; orderings are "
+             "compared as whole tuples")
+    ci = prog.cls("_StereoMixin")
+    # closure of __eq__ / __hash__ over self.<method>() calls
+    todo = ["__eq__", "__hash__"]
+    seen: set[str] = set()
+    n = 0
+    for cname in ("_StereoMixin",) + DESCRIPTOR_CLASSES:
+        cinfo = prog.cls(cname)
+        work = list(todo)
+        while work:
+            m = work.pop()
+            fi = cinfo.methods.get(m)
+            if fi is None or fi.qual in seen:
+                continue
+            seen.add(fi.qual)
+            n += 1
+            bad = None
+            for node in ast.walk(fi.node):
+                if isinstance(node, ast.Call) and isinstance(
+                        node.func, ast.Attribute):
+                    if node.func.attr == "index":
+                        bad = node
+                    if isinstance(node.func.value, ast.Name) and \
+                            node.func.value.id in ("self", "other"):
+                        work.append(node.func.attr)
+                elif isinstance(node, ast.Attribute) and node.attr == "index" \
+                        and not isinstance(parent_of(node), ast.Call):
+                    bad = node                       # map(x.index, ...)
+                elif isinstance(node, ast.DictComp):
+                    gen = node.generators[0]
+                    if "atoms" in norm(gen.iter) and norm(node.key) in {
+                            n2.id for n2 in ast.walk(gen.target)
+                            if isinstance(n2, ast.Name)}:
+                        bad = node
+                elif isinstance(node, ast.Call) and call_name(node) == "dict" \
+                        and node.args and isinstance(node.args[0], ast.Call) \
+                        and call_name(node.args[0]) == "zip" and node.args[0].args \
+                        and "atoms" in norm(node.args[0].args[0]):
+                    bad = node
+            inst = f"{fi.short}: whole-tuple comparison"
+            if bad is not None:
+                res.bad("R-PLACEHOLDER-SAFE", f"{fi.short}: {norm(bad, 80)}",
+                        fi.loc(bad),
+                        f"{fi.short}: `{norm(bad, 80)}` looks atoms up by "
+                        "position; orderings with two None placeholders "
+                        "(lone pairs / missing substituents) are then "
+                        "compared through the wrong permutation",
+                        instance=inst)
+            else:
+                res.ok("R-PLACEHOLDER-SAFE", inst, fi.loc())
+    res.need("R-PLACEHOLDER-SAFE", n, 4, "comparison helpers")
+
+
+def parent_of(node):
+    from ..core import parent
+    p = parent(node)
+    # map(x.index, ys): the attribute is an argument, not the callee
+    if isinstance(p, ast.Call) and p.func is node:
+        return p
+    return None
+
+
 def check_immutable(prog: Program, res: Result) -> None:
     res.rule("R-IMM", "no store to .atoms / .parity / .PERMUTATION_GROUP / "
              ".inversion of a descriptor anywhere except the assignments of "
@@ -703,6 +779,7 @@ def run(prog: Program, res: Result, tier: str) -> None:
             seen_impl.add(fi.qual)
         check_perm_helpers(prog, res, name)
     check_immutable(prog, res)
+    check_placeholder_safe(prog, res)
     res.exhaustive = True
     res.extra["resolved_implementations"] = sorted(seen_impl)
     res.need("T-ROT", res.count("T-ROT"), 58, "table rows")
